@@ -177,4 +177,17 @@ def long_open(tier, seed):
             fails.append({'what': f'peer OPEN in RFC 9072 format misread: families {neg.families} asn4 {neg.asn4}', 'input': {'open_body': body.hex()}})
     except Exception as e:  # noqa
         fails.append({'what': f'peer OPEN in RFC 9072 format refused: {type(e).__name__}: {e}', 'input': {'open_body': body.hex()}})
-    return {'evaluations': evals, 'distinct_nontrivial': evals, 'bound': '2 configurations whose OPEN exceeds 255 bytes of optional parameters + 1 peer OPEN in RFC 9072 format', 'rule': 'each case distinct by construction', 'samples': [{'families': fams}], 'failures': fails}
+    # RFC 9072 section 2: the Non-Ext OP Type 255 selects the extended encoding, the Non-Ext OP Len "MUST be ignored on receipt":
+    # a short extended OPEN whose first length octet is anything but 0, and the spec decoder's reading of the same bytes
+    for first in (255, 16, 1, 254):
+        caps2 = [H.cap(1, struct.pack('!HBB', 1, 0, 1)), H.cap(65, struct.pack('!L', 65001))]
+        params2 = b''.join(bytes([2]) + struct.pack('!H', len(c)) + c for c in caps2)
+        body2 = bytes([4]) + struct.pack('!HH', 65001, 180) + bytes([9, 9, 9, 9]) + bytes([first, 255]) + struct.pack('!H', len(params2)) + params2
+        evals += 1
+        try:
+            neg2, _s2, _r2 = H.negotiated(H.neighbor(), body2)
+            if sorted((int(a), int(s)) for a, s in neg2.families) != [(1, 1)] or not neg2.asn4:
+                fails.append({'what': f'peer OPEN in RFC 9072 format (Non-Ext OP Len {first}) misread: families {neg2.families} asn4 {neg2.asn4}', 'input': {'open_body': body2.hex()}})
+        except Exception as e:  # noqa
+            fails.append({'what': f'peer OPEN in RFC 9072 format (Non-Ext OP Len {first}, to be ignored on receipt) refused: {type(e).__name__}: {e}', 'input': {'open_body': body2.hex()}})
+    return {'evaluations': evals, 'distinct_nontrivial': evals, 'bound': '2 configurations whose OPEN exceeds 255 bytes of optional parameters + 1 long and 4 short peer OPENs in RFC 9072 format (Non-Ext OP Len 255, 16, 1, 254)', 'rule': 'each case distinct by construction', 'samples': [{'families': fams}], 'failures': fails}
